@@ -18,11 +18,19 @@ unsigned __int128 verif_fshr(unsigned __int128 a, unsigned __int128 b, unsigned 
 #else
 #define MODEL_ASSUME(c) do { if (!(c)) abort(); } while (0)
 #endif
-uint8_t* _Znwm(uint64_t n) { uint8_t* p = malloc(n ? n : 1); MODEL_ASSUME(p != 0); return p; }
+/* Untyped allocations are rounded up to size classes so that an allocation whose size is symbolic at the call site (e.g. a
+   std::string copy after a path merge) becomes a case split over constant-size objects instead of a symbolic-size array.
+   Over-allocation is unobservable for the code under test (no out-of-bounds/leak checks are claimed). */
+static uint8_t* verif_alloc(uint64_t n) {
+  uint8_t* p;
+  if (n <= 32) p = malloc(32); else if (n <= 128) p = malloc(128); else if (n <= 1024) p = malloc(1024); else p = malloc(n);
+  MODEL_ASSUME(p != 0); return p; }
+uint8_t* _Znwm(uint64_t n) { return verif_alloc(n); }
 uint8_t* _Znam(uint64_t n) { return _Znwm(n); }
-void _ZdlPv(uint8_t* p) { free(p); }
-void _ZdlPvm(uint8_t* p, uint64_t n) { free(p); }
-void _ZdaPv(uint8_t* p) { free(p); }
+/* deallocation is a no-op: memory is never reused (CBMC allocations are fresh objects anyway); use-after-free detection is outside every claim */
+void _ZdlPv(uint8_t* p) { }
+void _ZdlPvm(uint8_t* p, uint64_t n) { }
+void _ZdaPv(uint8_t* p) { }
 static int dummy_exc_type;
 static void verif_throw_generic(void) { verif_exc_pending = 1; verif_exc_obj = 0; verif_exc_type = &dummy_exc_type; }
 void _ZSt17__throw_bad_allocv(void) { verif_throw_generic(); }
@@ -40,41 +48,12 @@ void __cxa_rethrow(void) { verif_exc_pending = 1; }
 uint32_t __cxa_atexit(uint8_t* f, uint8_t* a, uint8_t* d) { return 0; }
 
 
-/* libstdc++ red-black tree: plain (unbalanced) BST insert -- same observable std::set/map semantics */
-struct rbn { uint32_t color; struct rbn* parent; struct rbn* left; struct rbn* right; } __attribute__((packed));
-void _ZSt29_Rb_tree_insert_and_rebalancebPSt18_Rb_tree_node_baseS0_RS_(uint8_t insert_left, uint8_t* x_, uint8_t* p_, uint8_t* h_) {
-  struct rbn* x = (struct rbn*)x_; struct rbn* p = (struct rbn*)p_; struct rbn* header = (struct rbn*)h_;
-  x->parent = p; x->left = 0; x->right = 0; x->color = (p == header) ? 1 : 0;
-  if (insert_left) {
-    p->left = x;
-    if (p == header) { header->parent = x; header->right = x; }
-    else if (p == header->left) header->left = x;
-  } else {
-    p->right = x;
-    if (p == header->right) header->right = x;
-  }
-}
-uint8_t* _ZSt18_Rb_tree_decrementPSt18_Rb_tree_node_base(uint8_t* x_) {
-  struct rbn* x = (struct rbn*)x_;
-  if (x->color == 0 && x->parent->parent == x) return (uint8_t*)x->right;
-  if (x->left != 0) { struct rbn* y = x->left; while (y->right != 0) y = y->right; return (uint8_t*)y; }
-  struct rbn* y = x->parent;
-  while (x == y->left) { x = y; y = y->parent; }
-  return (uint8_t*)y;
-}
-uint8_t* _ZSt18_Rb_tree_incrementPSt18_Rb_tree_node_base(uint8_t* x_) {
-  struct rbn* x = (struct rbn*)x_;
-  if (x->right != 0) { x = x->right; while (x->left != 0) x = x->left; return (uint8_t*)x; }
-  struct rbn* y = x->parent;
-  while (x == y->right) { x = y; y = y->parent; }
-  if (x->right != y) x = y;
-  return (uint8_t*)x;
-}
+/* libstdc++ red-black tree helpers: see tool/models/stl_models.cpp (linked as IR so node types match) */
 void _ZNSt8ios_base4InitC1Ev(uint8_t* s) {}
 void _ZNSt8ios_base4InitD1Ev(uint8_t* s) {}
 
-uint8_t* ll_malloc(uint64_t n) { return malloc(n); }
-void ll_free(uint8_t* p) { free(p); }
+uint8_t* ll_malloc(uint64_t n) { return verif_alloc(n); }
+void ll_free(uint8_t* p) { }
 uint8_t* ll_realloc(uint8_t* p, uint64_t n) { return realloc(p, n); }
 uint32_t ll_memcmp(uint8_t* a, uint8_t* b, uint64_t n) { return (uint32_t)memcmp(a, b, n); }
 uint32_t ll_bcmp(uint8_t* a, uint8_t* b, uint64_t n) { return (uint32_t)memcmp(a, b, n); }
